@@ -74,33 +74,45 @@ def run_case(ctx, nix, np, path, rng, rep):
         mt.references.append(da)
         c, o = [], None
         kinds = []
+        other = None
+        da[:]               # the reading handle has read once before any calibration is set
         nsteps = rng.randint(1, 6)
         for si in range(nsteps):
             op = rng.choice(["coef", "coef", "origin", "clear_coef", "clear_origin", "reopen"])
             kinds.append(op)
+            # the calibration is changed through the handle that also reads (da), or through another handle of the
+            # same array (kept since the start, or fetched just now) - every read must follow, whichever handle wrote
+            via = rng.choice(["reader", "second", "fresh"])
+            if via == "second" and other is None:
+                other = b.data_arrays[da.id]
+            wda = {"reader": da, "second": other, "fresh": None}[via] or b.data_arrays["d"]
+            if op != "reopen":
+                ctx.count("calibration_set_through:" + via)
             try:
                 if op == "coef":
                     c = [rng.choice([0.0, 1.0, 2.0, -0.5, 0.25, 3.0]) for _ in range(rng.randint(1, 5))]
-                    da.polynom_coefficients = c if rng.random() < 0.7 else tuple(c)
+                    wda.polynom_coefficients = c if rng.random() < 0.7 else tuple(c)
                 elif op == "origin":
                     o = rng.choice([0, 0.0, 2.5, -3, 1])
-                    da.expansion_origin = o
+                    wda.expansion_origin = o
                 elif op == "clear_coef":
                     c = []
-                    da.polynom_coefficients = rng.choice([None, []])
+                    wda.polynom_coefficients = rng.choice([None, []])
                 elif op == "clear_origin":
                     o = None
-                    da.expansion_origin = None
+                    wda.expansion_origin = None
                 else:
                     st["f"].close()
                     st["f"] = nix.File.open(path, rng.choice([nix.FileMode.ReadOnly, nix.FileMode.ReadWrite]))
                     b = st["f"].blocks[0]
                     da, tg, mt = b.data_arrays["d"], b.tags["tg"], b.multi_tags["mt"]
+                    other = None
                     if st["f"].mode == nix.FileMode.ReadOnly and si < nsteps - 1:
                         st["f"].close()
                         st["f"] = nix.File.open(path, nix.FileMode.ReadWrite)
                         b = st["f"].blocks[0]
                         da, tg, mt = b.data_arrays["d"], b.tags["tg"], b.multi_tags["mt"]
+                        other = None
             except Exception as e:
                 ctx.violation("step:%s:raises_%s" % (op, type(e).__name__), dict(rep, step=si, error=repr(e)), rep)
                 return kinds, str(dt), c, o
